@@ -332,6 +332,8 @@ class Report:
         ev = {"property_id": self.prop, "tier": self.tier, "seed": seed(), "level": self.level,
               "coverage": self.cov, "assumptions": self.assumptions,
               "wall_s": round(time.time() - self.t0, 1), "violations": nv}
+        if self.violations:
+            ev["coverage"]["violation_signatures"] = sorted(set(json.dumps(sg, sort_keys=True) for sg, _ in self.violations))[:200]
         ev["coverage"]["known_findings_observed"] = {k: v["count"] for k, v in self.known_hits.items()}
         evdir = os.environ.get("VERIF_EVIDENCE_DIR", os.path.join(VERIF, "evidence"))
         os.makedirs(evdir, exist_ok=True)
